@@ -8,7 +8,7 @@ dst = os.path.join("/verif/seeded", "%s-%s" % (pid, n))
 os.makedirs(dst, exist_ok=True)
 for f in os.listdir(src):
     shutil.copy(os.path.join(src, f), dst)
-json.dump({"property": pid, "breaks": pid, "wave": 3, "needs_to_manifest": needs,
+json.dump({"property": pid, "breaks": pid, "wave": int(os.environ.get("WAVE", "3")), "needs_to_manifest": needs,
            "first_run": first, "strengthening": strengthened, "caught_by_check": True, "check": by,
            "what_was_run": "tools/seedwave.sh %s <dir> (scratch worktree of /repo HEAD + patch; existing suite passes; demo passes clean / fails patched; ./check %s quick via tools/run_on.sh) -> VIOLATION with input replay" % (by, by),
            "confirmed": "patch applies to a clean worktree of /repo HEAD; existing suite passes with it; demo passes without and fails with the patch"},
